@@ -78,19 +78,19 @@ PROPS = {
     'C02': {
         'rules': WR_ALL + both(conf.rule_pa_conf, conf.rule_wr_order, conf.rule_pa_excl) + both(sk.rule_sk_stop, sk.rule_sk_relay, sk.rule_sk_unnest_pos, pa.rule_pa_top, pa.rule_pa_zero, pa.rule_pa_asc),
         'thorough_rules': both(sk.rule_sk_emit, conf.rule_rs_proto) + one(xp.rule_xp_verdicts, xp.rule_xp_roles),
-        'explanation': 'Decides the composition sort -> dedup -> truncate on the exhaustive configuration table of the shallow parser (1024 keyword configurations): wrapping order Top, Uniq|UniqCount, Sorted and presence iff keyword; per writer: stable ascending sort on the key only with DESC = reversal of that result, first-occurrence dedup on the immutable record image, insertion-ordered multiplicity map with count prefix, TOP refusing iff NW >= N and counting forwarded records; termination: every write() returns a boolean, every downstream verdict is propagated, a false verdict sets stop_flag, the loop tests it and inner loops break. The sort dominates the emission (it cannot be skipped by a test that does not use the ORDER BY comparator) and every arrival is buffered exactly once. select_simple relays the writer\'s verdict; comparators do not use locale collation.',
+        'explanation': 'Decides the composition sort -> dedup -> truncate on the exhaustive configuration table of the shallow parser (1024 keyword configurations): wrapping order Top, Uniq|UniqCount, Sorted and presence iff keyword; per writer: stable ascending sort on the key only with DESC = reversal of that result, first-occurrence dedup on the immutable record image, insertion-ordered multiplicity map with count prefix, TOP refusing iff NW >= N and counting forwarded records; termination: every write() returns a boolean, every downstream verdict is propagated, a false verdict sets stop_flag, the loop tests it and inner loops break. The sort dominates the emission (it cannot be skipped by a test that does not use the ORDER BY comparator) and every arrival is buffered exactly once. select_simple relays the writer\'s verdict; comparators do not use locale collation. A chain writer never reads a record again after forwarding it (output writers normalise the list in place), and a record emitted from a loop is bound anew in every iteration.',
         'not_decided': 'that user sort keys are mutually comparable; stability of sorted()/Array.sort (trusted language semantics).',
     },
     'C03': {
         'rules': AG_ALL + both(wr.rule_wr_aggw, wr.rule_wr_freshrow, sk.rule_sk_alias, sk.rule_sk_emit, conf.rule_pa_excl),
         'thorough_rules': both(sk.rule_sk_where, wr.rule_wr_prop) + one(xp.rule_xp_roles),
-        'explanation': 'Decides routing and grouping: each aggregate entry point (and every alias spelling bound in the generated prologue) registers the aggregator class of the same name, COUNT passes 1, token ids equal registration order, stage 1 installs one aggregator or constant-group verifier per output column and feeds the first record, stage 2 increments aggregator i with value i, group keys are collected in a set and emitted in ascending component-wise order, one get_final per column; constant-group verifier raises on a differing value and tests absence by membership; lower-case min/max/sum dispatch; COUNT(*) rewrite; ORDER BY/UPDATE/DISTINCT rejected. rbql-js parse_number hands back only values tested with isNaN on that path. Python NumHandler.parse makes ints from the text itself (never via float, which is exact only up to 2**53) and reaches float(text) only behind the int attempt or the is_int flag.',
+        'explanation': 'Decides routing and grouping: each aggregate entry point (and every alias spelling bound in the generated prologue) registers the aggregator class of the same name, COUNT passes 1, token ids equal registration order, stage 1 installs one aggregator or constant-group verifier per output column and feeds the first record, stage 2 increments aggregator i with value i, group keys are collected in a set and emitted in ascending component-wise order, one get_final per column; constant-group verifier raises on a differing value and tests absence by membership; lower-case min/max/sum dispatch; COUNT(*) rewrite; ORDER BY/UPDATE/DISTINCT rejected. rbql-js parse_number hands back only values tested with isNaN on that path. Python NumHandler.parse makes ints from the text itself (never via float, which is exact only up to 2**53) and reaches float(text) only behind the int attempt or the is_int flag. rbql-js parse_number rejects a value exactly when Number(val) is NaN (a gating pattern is tested on exponent / sign / leading-dot numerals); the aggregate row handed to the next writer is a fresh list per group.',
         'not_decided': 'floating-point rounding of the accumulators and the order of additions (AG-FOLD decides the fold expressions up to algebraic identity over the rationals, AG-MEDIAN the even/odd selection; bit-exact results are statements about runtime values).',
     },
     'C04': {
         'rules': JN_ALL + both(sk.rule_sk_join, sk.rule_sk_vars, sk.rule_sk_unnest, pa.rule_pa_groups, hd.rule_va_index) + both(sk.rule_sk_stop, sk.rule_sk_copy),
         'thorough_rules': both(sk.rule_sk_where, sk.rule_sk_emit, sk.rule_sk_unnest, sk.rule_sk_upd, sk.rule_sk_err) + one(xp.rule_xp_keywords, xp.rule_rx_xp),
-        'explanation': 'Decides join pairing structure: longest join keyword wins, keyword -> joiner table total and name-consistent, B map appended in read order with 1-based bNR and (bNR, bNF, record) triples, build() before joiner construction, LEFT null record of max_record_len Nones, STRICT != 1 raises, A-side and B-side key representations switch on the same condition, ON accepts = and == in either operand order, NR keys -> index -1; in the generated program each A record is paired with get_rhs(key) matches in order and the whole select block (variables, WHERE, SELECT, sort/group key) is inside the match loop; UPDATE JOIN: >1 raises, 1 binds, 0 binds Nones and skips assignments.',
+        'explanation': 'Decides join pairing structure: longest join keyword wins, keyword -> joiner table total and name-consistent, B map appended in read order with 1-based bNR and (bNR, bNF, record) triples, build() before joiner construction, LEFT null record of max_record_len Nones, STRICT != 1 raises, A-side and B-side key representations switch on the same condition, ON accepts = and == in either operand order, NR keys -> index -1; in the generated program each A record is paired with get_rhs(key) matches in order and the whole select block (variables, WHERE, SELECT, sort/group key) is inside the match loop; UPDATE JOIN: >1 raises, 1 binds, 0 binds Nones and skips assignments. The ON-pair resolution is checked against a table of ways to write a pair (either order, record-number keys on either side) on path summaries; the B-side key functions are evaluated on the index classes {-1, inside, outside the record}; the JS join table is a Map; the stop flag of the main loop starts out False.',
         'not_decided': 'equality of key values (hashing of user data) - trusted to dict/Map semantics.',
     },
     'C05': {
@@ -108,7 +108,7 @@ PROPS = {
     'C07': {
         'rules': HD_ALL + both(conf.rule_hd_arity, conf.rule_pa_hdrcall, conf.rule_pa_conf, ow.rule_ow_mut, pa.rule_rx_guard),
         'thorough_rules': both(sk.rule_sk_copy, pa.rule_pa_case) + one(xp.rule_xp_verdicts),
-        'explanation': 'Decides header/record arity agreement and the naming table: in every parser configuration the arity delta of the installed writers (DISTINCT COUNT: +1) is applied to the header before set_header; set_header is called exactly once on the unwrapped sink with nothing that can raise afterwards; UPDATE hands the unchanged input header; EXCEPT header and records use select_except with the same indices; naming decision table total and ordered (unnamed -> colK by output position, star forms, column name, alias, in-range index -> source name); subscript shapes of this interpreter\'s ast are covered; the two star-rewriting patterns agree; no input header and no alias -> no header. The CSV writer emits the header at once, or - if deferred - on every normal path through finish(); the width test dominates every stream write. The naming table is decided by evaluating the per-column code (inline or in a helper) on all 257 abstract column infos.',
+        'explanation': 'Decides header/record arity agreement and the naming table: in every parser configuration the arity delta of the installed writers (DISTINCT COUNT: +1) is applied to the header before set_header; set_header is called exactly once on the unwrapped sink with nothing that can raise afterwards; UPDATE hands the unchanged input header; EXCEPT header and records use select_except with the same indices; naming decision table total and ordered (unnamed -> colK by output position, star forms, column name, alias, in-range index -> source name); subscript shapes of this interpreter\'s ast are covered; the two star-rewriting patterns agree; no input header and no alias -> no header. The CSV writer emits the header at once, or - if deferred - on every normal path through finish(); the width test dominates every stream write. The naming table is decided by evaluating the per-column code (inline or in a helper) on all 257 abstract column infos. select_output_header is also evaluated as a whole on abstract select lists (every kind of column info, indices inside / outside the header of their own table, an empty header name, no header with / without aliases).',
         'not_decided': 'that the header-side parse (python ast / JS bracket scanner) and the record-side evaluation of an arbitrary select list agree on the number of items.',
     },
     'C08': {
@@ -138,13 +138,13 @@ PROPS = {
     'C12': {
         'rules': RD_PY,
         'thorough_rules': py(cs.rule_cs_dispatch, rs.rule_fl_flags) + one(rs.rule_rs_decerr),
-        'explanation': 'Decides the structural reasons why chunking cannot matter: every non-empty chunk returned by stream.read is appended to the carry-over buffer on every path; every store to the buffer is an append, the remainder of the (line, separator, rest) partition whose head is returned, or emptying after its content was returned; a CR at the very end of buffered data triggers a one-character look-ahead whose LF is merged and whose other character becomes the buffer; bytes are decoded only by an incremental strict decoder; chunk_size occurs only as the read size; non-empty remainder at EOF is a row; BOM removal on the first physical line with the flag; comment lines skipped before the record counter; quoted_rfc continuation by quote parity; newline language {CRLF, CR, LF} with CRLF first.',
+        'explanation': 'Decides the structural reasons why chunking cannot matter: every non-empty chunk returned by stream.read is appended to the carry-over buffer on every path; every store to the buffer is an append, the remainder of the (line, separator, rest) partition whose head is returned, or emptying after its content was returned; a CR at the very end of buffered data triggers a one-character look-ahead whose LF is merged and whose other character becomes the buffer; bytes are decoded only by an incremental strict decoder; chunk_size occurs only as the read size; non-empty remainder at EOF is a row; BOM removal on the first physical line with the flag; comment lines skipped before the record counter; quoted_rfc continuation by quote parity; newline language {CRLF, CR, LF} with CRLF first. quoted_rfc record assembly is decided by exploring every sequence of up to four abstract line reads (end of input / even / odd number of quotes; comment or not) of get_row_rfc: which lines are consumed and what is returned.',
         'not_decided': 'equality of results over all partitions (a statement about schedules x strings).',
     },
     'C13': {
         'rules': IF_ALL + one(ow.rule_ow_pandas) + py(rd.rule_rd_comment),
         'thorough_rules': both(conf.rule_rs_proto) + py(cs.rule_cs_dispatch),
-        'explanation': 'Decides that the engine cannot tell adapters apart and the CLI channel discipline: the engine imports no adapter and never inspects an adapter type; every adapter implements the interface with the engine\'s arity and hands the engine lists; every entry point delegates the unchanged query to rbql_engine.query; on the non-interactive path nothing but --version prints to stdout, errors are `Error [type]: msg` and warnings `Warning: msg` on stderr, every failure ends in sys.exit(1), success falls off main; error type map and out-format/default-policy tables. An option to which the CLI assigns a falsy legal value is tested by presence only; every registry returns an iterator constructed by that call; the runner maps any exception to show_error + False and success to True (path summaries, helper followed); the CSV header is emitted on every path. Every iterator\'s get_variables_map registers positional variables always and name-based ones whenever column names are present and on nothing else (an empty table, a record count), so a query binds the same way through every front end; comment-prefix handling of the CSV reader (empty prefix = none). Every args.<name> read on the path from an entry point is declared by that entry point\'s parser (calls followed with constant arguments); option-or-default selections take the option when present; a runner reports success only after running the query; every result frame of the pandas writer carries the header.',
+        'explanation': 'Decides that the engine cannot tell adapters apart and the CLI channel discipline: the engine imports no adapter and never inspects an adapter type; every adapter implements the interface with the engine\'s arity and hands the engine lists; every entry point delegates the unchanged query to rbql_engine.query; on the non-interactive path nothing but --version prints to stdout, errors are `Error [type]: msg` and warnings `Warning: msg` on stderr, every failure ends in sys.exit(1), success falls off main; error type map and out-format/default-policy tables. An option to which the CLI assigns a falsy legal value is tested by presence only; every registry returns an iterator constructed by that call; the runner maps any exception to show_error + False and success to True (path summaries, helper followed); the CSV header is emitted on every path. Every iterator\'s get_variables_map registers positional variables always and name-based ones whenever column names are present and on nothing else (an empty table, a record count), so a query binds the same way through every front end; comment-prefix handling of the CSV reader (empty prefix = none). Every args.<name> read on the path from an entry point is declared by that entry point\'s parser (calls followed with constant arguments); option-or-default selections take the option when present; a runner reports success only after running the query; every result frame of the pandas writer carries the header. All iterators write bare column names and positional variables into the variable map in the same order.',
         'not_decided': 'equality of results across back-ends (depends on pandas/sqlite value conversion).',
     },
     'C14': {
@@ -156,13 +156,13 @@ PROPS = {
     'C15': {
         'rules': RS_ALL + py(wr.rule_wr_ret, wr.rule_wr_prop, wr.rule_wr_fin, sk.rule_sk_stop, sk.rule_sk_relay, sk.rule_sk_unnest_pos, sk.rule_sk_err, conf.rule_rs_proto, conf.rule_pa_hdrcall),
         'thorough_rules': py(rs.rule_fl_flags, rd.rule_rd_decode) + js(sk.rule_sk_err),
-        'explanation': 'Decides fault handling structure (Python): the broken-pipe handler covers every stream write, sets the flag and returns False, finish() is a no-op afterwards; the False propagates through every chain writer to stop_flag and the loops; every stream.read is reachable only through the try that maps UnicodeDecodeError to the IO error; every open() in the CSV/sqlite front-ends is closed on all paths (with / flag-coupled try-finally / object closed in the creator\'s finally); protocol: parser calls only set_header (once, unwrapped, first), the run only write, query() calls finish exactly once after a successful run, not in a finally. In the broken-pipe handlers a re-raise is possible only under a test that is false when the caught class is BrokenPipeError itself; no path that leaves a chain writer\'s finish() exceptionally has finished the sink. File handles: opened into a local and flagged at once inside try/finally, or stored on the object before anything that can raise runs. select_simple returns false exactly when the writer refused and writes once per call.',
+        'explanation': 'Decides fault handling structure (Python): the broken-pipe handler covers every stream write, sets the flag and returns False, finish() is a no-op afterwards; the False propagates through every chain writer to stop_flag and the loops; every stream.read is reachable only through the try that maps UnicodeDecodeError to the IO error; every open() in the CSV/sqlite front-ends is closed on all paths (with / flag-coupled try-finally / object closed in the creator\'s finally); protocol: parser calls only set_header (once, unwrapped, first), the run only write, query() calls finish exactly once after a successful run, not in a finally. In the broken-pipe handlers a re-raise is possible only under a test that is false when the caught class is BrokenPipeError itself; no path that leaves a chain writer\'s finish() exceptionally has finished the sink. File handles: opened into a local and flagged at once inside try/finally, or stored on the object before anything that can raise runs. select_simple returns false exactly when the writer refused and writes once per call. A fresh file handle is never passed straight into a call that can fail.',
         'not_decided': 'OS-level behaviour of pipes and the text wrapper\'s flushing.',
     },
     'C16': {
         'rules': GS_ALL + py(sk.rule_sk_scope, lk.rule_lk_cache, ow.rule_ow_mut, ow.rule_ow_open, ow.rule_ow_conn) + one(hd.rule_va_record) + py(ifc.rule_if_regfresh),
         'thorough_rules': py(sk.rule_sk_alias),
-        'explanation': 'Decides isolation as absence of shared mutable state (hence independence of every schedule and history): inventory of module-level bindings with every mutable one never the receiver of a mutating operation; `global` writes allow-listed (two debug flags); no class-level mutable attribute, no mutable default; the per-query context is created per call, only passed down or captured by per-run closures; exec receives explicit globals and a per-call locals mapping and runs the composed skeleton whose every binding is local to the wrapper function; the LIKE cache lives in the context. Module-level tables filled only as pure memos (value computed from the key alone by side-effect free operations) are accepted; module-level instances of classes whose methods change them are shared state; registries hand out fresh iterators.',
+        'explanation': 'Decides isolation as absence of shared mutable state (hence independence of every schedule and history): inventory of module-level bindings with every mutable one never the receiver of a mutating operation; `global` writes allow-listed (two debug flags); no class-level mutable attribute, no mutable default; the per-query context is created per call, only passed down or captured by per-run closures; exec receives explicit globals and a per-call locals mapping and runs the composed skeleton whose every binding is local to the wrapper function; the LIKE cache lives in the context. Module-level tables filled only as pure memos (value computed from the key alone by side-effect free operations) are accepted; module-level instances of classes whose methods change them are shared state; registries hand out fresh iterators. The sqlite adapter sets no attribute of the connection, which belongs to the caller.',
         'not_decided': 'stdlib-internal caches (re) and whatever user expressions touch; the JavaScript module-global query_context is outside this property\'s anchors and reported only as evidence.',
     },
     'C17': {
@@ -174,7 +174,7 @@ PROPS = {
     'C18': {
         'rules': XP_ALL + both(cs.rule_rx_field, cs.rule_rx_ws, cs.rule_rx_newline, cs.rule_cs_trigger, cs.rule_cs_accept, cs.rule_cs_width, cs.rule_cs_extws, cs.rule_cs_dispatch, cs.rule_cs_reader, hd.rule_hd_table, rd.rule_rd_bom) + one(rd.rule_rd_jschunk) + both(conf.rule_hd_countpos) + js(ow.rule_ow_mut),
         'thorough_rules': both(rd.rule_rd_bom, rd.rule_rd_comment, rd.rule_rd_rfc, rs.rule_fl_flags, rs.rule_fl_fields, cs.rule_rx_newline, cs.rule_rx_ws),
-        'explanation': 'Decides agreement of canonical facts extracted independently from each port: 27 paired regexes language-equal (or allow-listed with reason), both quoted-field regexes equal to the reference language, same quote trigger sets, same acceptance rule and delimiter-width handling, same policy dispatch, same statement keywords and groups (FROM only in Python), same reader warning and IO error message templates, same header naming decision table; both ports are held to the same rule for BOM/comment/RFC handling.',
+        'explanation': 'Decides agreement of canonical facts extracted independently from each port: 27 paired regexes language-equal (or allow-listed with reason), both quoted-field regexes equal to the reference language, same quote trigger sets, same acceptance rule and delimiter-width handling, same policy dispatch, same statement keywords and groups (FROM only in Python), same reader warning and IO error message templates, same header naming decision table; both ports are held to the same rule for BOM/comment/RFC handling. Both ports leave a field unquoted under the same set of absent characters (delimiter as a substring, not character by character).',
         'not_decided': 'header inference on arbitrary select lists (python ast vs JS text spans are different algorithms); behavioural equality of the two reader architectures.',
     },
     'C19': {
@@ -186,7 +186,7 @@ PROPS = {
     'C20': {
         'rules': RD_JS,
         'thorough_rules': js(rs.rule_fl_flags, rs.rule_fl_fields, cs.rule_cs_dispatch) + one(xp.rule_xp_messages),
-        'explanation': 'Decides the chunk pipeline of the JS stream reader: bytes decoded only by one TextDecoder created fatal and ignoreBOM, every chunk decoded with {stream: true}, decoder flushed at end of stream, decode failures mapped to the IO error; the carried partial line is prepended to the first line of the next chunk and the last line kept, every complete line processed once in order; a chunk starting with LF right after a chunk ending in CR skips the empty first line, the ends-with-CR flag recomputed per chunk after use; end of stream flushes the partial line and an unfinished multi-line record; multi-line aggregation by quote parity; FIFO record queue. In bulk mode the test that rejects input compares against the raw bytes (the decoded text alone cannot tell a substituted U+FFFD from a genuine one).',
+        'explanation': 'Decides the chunk pipeline of the JS stream reader: bytes decoded only by one TextDecoder created fatal and ignoreBOM, every chunk decoded with {stream: true}, decoder flushed at end of stream, decode failures mapped to the IO error; the carried partial line is prepended to the first line of the next chunk and the last line kept, every complete line processed once in order; a chunk starting with LF right after a chunk ending in CR skips the empty first line, the ends-with-CR flag recomputed per chunk after use; end of stream flushes the partial line and an unfinished multi-line record; multi-line aggregation by quote parity; FIFO record queue. In bulk mode the test that rejects input compares against the raw bytes (the decoded text alone cannot tell a substituted U+FFFD from a genuine one). What the chunk handler stores about a chunk is read only by itself, the end-of-stream handler and the constructor; bulk mode drops exactly one final line break.',
         'not_decided': 'equality over all byte partitions.',
     },
 }
